@@ -192,7 +192,7 @@ def _vac_probe(fn_text_with_contract: str, name: str, requires: list[str], in_im
         while True:
             if toks[k].text == "<":
                 depth += 1
-            elif toks[k].text == ">":
+            elif toks[k].text == ">" and not (k > 0 and toks[k - 1].text == "-" and toks[k - 1].end == toks[k].start):   # not the `->` of an Fn bound
                 depth -= 1
                 if depth == 0:
                     break
